@@ -52,6 +52,8 @@ let parse_op tok =
   match String.split_on_char ':' tok with
   | ["S"; k; v; tr; d; g] ->
       OStore (bytes_of_hex k, value_of v, trigs_of tr, z_of_string d, (if g = "-" then None else Some (n_of_string g)))
+  | ["X"; k; v; tr; d; g] ->
+      OStoreFail (bytes_of_hex k, value_of v, trigs_of tr, z_of_string d, (if g = "-" then None else Some (n_of_string g)))
   | ["F"; k] -> OFetch (bytes_of_hex k)
   | ["R"; t] -> ORise (bytes_of_hex t)
   | ["D"; k] -> ORemove (bytes_of_hex k)
@@ -59,7 +61,7 @@ let parse_op tok =
   | ["Z"] -> OStats
   | _ -> failwith "bad op"
 
-let unit_tag = function OStore _ -> "s" | ORise _ -> "r" | ORemove _ -> "d" | OClear -> "c" | _ -> "?"
+let unit_tag = function OStore _ -> "s" | OStoreFail _ -> "x" | ORise _ -> "r" | ORemove _ -> "d" | OClear -> "c" | _ -> "?"
 let tok_of_ret o r =
   match r with
   | RMiss -> "m"
